@@ -153,6 +153,11 @@ def _finite_values(W, name):
 
 def pick_value(rng, W, name):
     a = _finite_values(W, name)
+    if W.kinds.get(name) in ("world", "derived", "linked"):
+        # values of computed attributes carry evaluation-order rounding (1 ulp differences between a viewed and a full
+        # evaluation): a bound that coincides with such a value is a rounding tie, on which the statements are silent.
+        # Bounds on computed attributes are therefore kept away from the attribute's values.
+        return float(a[rng.randrange(a.size)]) + rng.choice([0.1372931, -0.2113847, 0.5137219, -0.0731943])
     return float(a[rng.randrange(a.size)]) + rng.choice([0.0, 0.0, 0.25, -0.25, 0.5])
 
 
